@@ -824,8 +824,12 @@ namespace ip {
 				assert(m_bytes_in_flight >= acked_bytes);
 				m_bytes_in_flight -= acked_bytes;
 
-				// potentially resend packets
-				while (!m_outgoing_packets.empty()
+				// potentially resend packets. Each queued segment is tried at most
+				// once per ACK: a re-sent segment may be dropped again right away
+				// (and re-queued), which must not turn this into an endless loop
+				std::size_t resend_budget = m_outgoing_packets.size();
+				while (resend_budget-- > 0
+					&& !m_outgoing_packets.empty()
 					&& m_bytes_in_flight
 						+ int(m_outgoing_packets.front().buffer.size()) <= m_cwnd)
 				{
